@@ -25,7 +25,7 @@ CHECKS = {
 }
 
 SEQ_NOTE = ("Trusted base: the cfg-gated interception layer in clock-bound-shm/src/verif.rs (every atomic access, fence and record copy of reader.rs/writer.rs goes through it; a static scan and a run-time byte comparison refuse to judge (exit 2) code that bypasses it), "
-            "the memory-model simulator harness/src/seqmc/ra.rs (validated against 16 litmus programs with known C11 outcome sets on every run), the writer-first reduction and stutter elimination argued in DESIGN.md 3.1/3.3. "
+            "the memory-model simulator harness/src/seqmc/ra.rs (validated on every run against 16 litmus programs with hand-derived C11 outcome sets, and cross-checked against loom 0.7.2 on the same programs: outcome sets equal), the writer-first reduction and stutter elimination argued in DESIGN.md 3.1/3.3. "
             "Bounds: K <= 2-3 updates per incarnation, <= 2-3 incarnations, record split in 2/4/7 chunks; the reader's number of calls is unbounded (fixpoint over its cache states).")
 SEQ_TECH = "stateless model checking of the real ShmWriter/ShmReader under a simulated C11 release/acquire memory model (exhaustive read-from / interleaving / crash-point enumeration, reader states to a fixpoint)"
 CHECKS.update({
@@ -36,13 +36,13 @@ CHECKS.update({
    text="Same exploration; publication index returned by successive calls never decreases (RA and SC modes); in SC mode (all interleavings of writer events with reader loads, canonicalised per location) a call all of whose loads are explained by an idle writer position must return the latest completed publication there.",
    design_ref="3.3, 3.4", note=SEQ_NOTE),
  "C04": dict(engine="seqmc", category="fault_enumeration", technique=SEQ_TECH + "; crash at every intercepted writer event, restart",
-   text="Two (thorough: three) writer incarnations with a crash after every intercepted event of ShmWriter::new / wipe / write (each file operation of wipe, the version store, each generation store, each record chunk), then a restart; readers attached at every position: (a) only complete records, in order (RA + SC), (b) SC freshness after the restarted daemon's first publication, (c) writer-trace oracles: a valid segment is never wiped/emptied/re-laid-out, an unusable one is attachable and 72 bytes after the first publication; ShmReader::new accepts exactly the file states the documented header rules call valid.",
+   text="Two (thorough: three) writer incarnations with a crash after every intercepted event of ShmWriter::new / wipe / write (each file operation of wipe, the version store, each generation store, each record chunk), then a restart; readers attached at every position (the attach itself is explored like a call): (a) only complete records, in order (RA + SC), (b) SC freshness after the restarted daemon's first publication, (c) writer-trace oracles: a valid segment is never wiped/emptied/re-laid-out, an unusable one is attachable and 72 bytes after the first publication; ShmReader::new accepts exactly the file states the documented header rules call valid.",
    design_ref="3.3, 3.4", note=SEQ_NOTE),
  "C11": dict(engine="seqmc", category="model_checking", technique="explicit-state closure over (generation, idle/in-flight) with the successor relation computed by the real ShmWriter::write for all 65535 start values x crash points",
    text="All 65535 non-zero start generations x {complete update, crash after each of the 4 events of an update followed by a restart and a full update}, plus the histories from a freshly wiped segment: in the file as a third-party reader sees it the generation is odd at every position inside an update, the record is only modified while it is odd, it is even, non-zero and changed after the update, 0 is never visible after the first publication, the wrap continues at 2. Because every value is a start value, the invariant is inductive; the reachable closure from the wiped segment is reported as states/transitions.",
    design_ref="3.5", note="Trusted base: interception layer as for C02; file snapshots after every event. Exhaustive over the 16-bit generation domain."),
  "C18": dict(engine="seqmc", category="model_checking", technique=SEQ_TECH,
-   text="The writer stops for ever at every position of every trace (RA with bounded stale reads, SC with all interleavings); every snapshot() call of every reader must return after at most 5e6 record copies; a call that finds an update in flight (odd or zero generation, version 0) must answer Ok from its previous snapshot within 64 loads. Calls that spin on a dead writer are really executed to the end of the retry budget once per distinct signature and otherwise cut after 3000 identical iterations. Plus a directed free-running run against a continuously updating writer (labelled non-exhaustive).",
+   text="The writer stops for ever at every position of every trace (RA with bounded stale reads, SC with all interleavings); every snapshot() call of every reader must return after at most 5e6 record copies; a call that finds an update in flight (odd or zero generation, version 0) must answer Ok from its previous snapshot within 64 loads. Calls that spin on a dead writer are really executed to the end of the retry budget once per distinct signature and otherwise cut after 3000 identical iterations. Plus two directed single schedules for the continuously-updating-writer clause: a free-running writer thread, and a deterministic adversary that completes one update between every record copy and re-check of the reader 3e6 times (a bounded reader gives up by itself; returning only once the adversary stops is a violation).",
    design_ref="3.3, 3.4", note=SEQ_NOTE),
 })
 
@@ -57,10 +57,10 @@ HIST_NOTE = ("Trusted base: virtual time (clock_gettime interposed by the harnes
 HIST_TECH = "exhaustive enumeration of all event histories up to a depth over a finite alphabet, each replayed through the real implementation in virtual time and compared step by step with a reference model"
 CHECKS.update({
  "C08": dict(engine="histmc", category="model_checking", technique=HIST_TECH,
-   text="Every sequence of poll outcomes up to depth 5 (thorough 7) over 10 outcome kinds (two distinguishable synchronised reports, unsynchronised, stale, bad leap, future reference time, no reply within/beyond grace, PHC failure within/beyond grace) x 4 drift/PHC configurations is fed as messages into the real process_messages/ShmUpdater/FSM; every published record of every prefix is compared field by field (as-of, bound via the exact C07 reference, void-after, drift, status once a synchronised report was seen) with a reference updater; one publication per outcome.",
-   design_ref="4.4", note=HIST_NOTE),
+   text="Phase 1: every sequence of poll outcomes of depth 5 (thorough 8) over 10 outcome kinds (two distinguishable synchronised reports, unsynchronised, stale, bad leap, future reference time, no reply within/beyond grace, PHC failure within/beyond grace) x 4 drift/PHC configurations is fed as messages into the real process_messages/ShmUpdater/FSM; every published record of every prefix is compared field by field (as-of, bound via the exact C07 reference, void-after, drift, status once a synchronised report was seen) with a reference updater; one publication per outcome. Phase 2: every sequence of depth 4 (thorough 6) of poll answers (tracking with the PHC's id and a readable / unreadable PHC file, another id, unsynchronised, stale, silence) x gap 1 s / 5.1 s through the real poller AND the real writer loop; the published status must be the documented one for the outcome (within / beyond grace decided by the age of the last good answer).",
+   design_ref="4.3", note=HIST_NOTE),
  "C09": dict(engine="histmc", category="model_checking", technique=HIST_TECH,
-   text="Every sequence of non-synchronised outcomes up to depth 5 (thorough 7) after a daemon start at two machine uptimes: every record published before the lifetime's first synchronised report must carry Unknown; every distinct record so published is then written through the real ShmWriter (fresh segment, and restart over an older good record) and evaluated by the real client library (new and long-lived client) at uptimes 5/100/999/1001 s: it must say Unknown.",
+   text="Every sequence of non-synchronised outcomes of depth 5 (thorough 8) after a daemon start at two machine uptimes: every record published before the lifetime's first synchronised report must carry Unknown; every distinct record so published is then written through the real ShmWriter (fresh segment, and restart over an older good record) and evaluated by the real client library (new and long-lived client) at uptimes 5/100/999/1001 s: it must say Unknown.",
    design_ref="4.4", note=HIST_NOTE),
  "C10": dict(engine="histmc", category="exploration", technique="exhaustive sweep of the 16-bit leap-status domain x boundary alphabets through the real decode/classify/FSM path against a reference classifier",
    text="All 65536 leap-status values x update-interval alphabet x reference-time ages on both sides of 'now' and of the eight-interval threshold (exact dyadic threshold, +/-1 ns, whole-second neighbours) x previous status, as wire-decoded tracking messages through the real process_messages; published status compared with the reference classification (ages inside (floor(8I) s, 8I] are a don't-care).",
@@ -81,7 +81,7 @@ CHECKS.update({
 
 CHECKS.update({
  "C15": dict(engine="threadmc", category="model_checking", technique="stateless model checking of the real daemon threads under a controlled (baton) scheduler: iterative preemption-bounded DFS over schedules x exhaustive fault placement",
-   text="The real thread_manager::run with its real poller and writer threads (std threads serialised by a baton behind cfg-gated mpsc/spawn stand-ins, virtual time) is executed for every schedule with at most 2 (thorough: 4) preemptions and at most 1 (2) unfairly early timeouts, for every fault placement: victim in {poller, writer} x every fault opportunity of start-up and the first 3 (4) loop iterations (before/after every send, receive, chrony query; the named loop-head and start-up points) x {panic, early return}, a real start-up failure (segment path uncreatable), chronyd answering or silent, both orders of the abort broadcast. Oracle on every execution in which the fault fired: run() returns, every thread is joined, no deadlock (the daemon lingering), exit within 4 + u virtual seconds.",
+   text="The real thread_manager::run with its real poller and writer threads (std threads serialised by a baton behind cfg-gated mpsc/spawn stand-ins, virtual time) is executed for every schedule with at most 2 (thorough: 4) preemptions and at most 1 (2) unfairly early timeouts, for every fault placement: victim in {poller, writer} x every fault opportunity of start-up and the first 3 (4) loop iterations (before/after every send, receive, chrony query; the named loop-head and start-up points) x {panic, early return}, a real start-up failure (segment path uncreatable), chronyd answering / absent / wedged (an environment model of the datagram exchange that honours the client's own timeout and retry options), both orders of the abort broadcast. Oracle on every execution in which the fault fired: run() returns, every thread is joined, no deadlock (the daemon lingering), exit within 4 + u virtual seconds (+ one request in progress when chronyd is wedged).",
    design_ref="5", note="Trusted base: the scheduler in harness/src/threadmc/sched.rs; the stand-ins in clock-bound-d/src/verif.rs (they wrap the real std channels and threads; a disagreement between the model queue and the real channel is a hard error). Code between two scheduling points is assumed atomic (workers share nothing but channels and the segment). Bounded preemptions and horizon; not an unbounded liveness proof."),
 })
 
